@@ -211,5 +211,37 @@ PROPS["C11"]["runs"].append(dict(features=["c11"], cfg="nostd", stubbing=True, f
 for _k in ("C14", "C18"):
     PROPS[_k]["runs"].append(dict(features=[_k.lower()], cfg="std", jobs=8, filters={"quick": [_k.lower() + "q_ioreader"], "thorough": [_k.lower() + "q_ioreader", _k.lower() + "t_ioreader"]}))
 
+# additions after seeded-change rounds 3 and 4 (appended to the bounds of the properties they extend)
+_MORE_BOUNDS = {
+    "C01": "the count 2^32-1 (five-byte prefix; slice of unit values, sink cuts after the prefix); sequences/arrays of pointer-wrapped primitives (&u32, Box<u16>, Rc<u8>, Arc<i8>, &f32); every small derived struct as a Vec/array ELEMENT; always-quick matrix cells",
+    "C02": "every small derived struct as a Vec element (round trip)",
+    "C03": "BitVec: a bit count above 2^29-1 is rejected before any allocation is announced; always-quick matrix cells (zero-sized-with-encoding and unit elements in every sequence container)",
+    "C05": "explicit discriminants on field-carrying variants (#[repr(u8)]); in-place decode (Box, array) keeps #[codec(skip)] defaults, incl. a transparent struct whose only sized field is skipped; variants with equal field types but different attributes",
+    "C07": "non-ASCII str/String through every entry point; decode side of the bulk paths (arrays/Vec/VecDeque of bool, OptionBool, NonZeroU8, Option<()> accept exactly what their elements accept)",
+    "C08": "IoReader over streams of symbolic length <= 5 that end anywhere, symbolic chunk size (std run); [Duration; N] and [OptionBool; 3] over slice vs unknown-length; zero-width values from an empty input of every kind incl. the shared buffer",
+    "C09": "`skip` on hostile counts (63 and 2^26; slice-like and unknown-length); hostile counts through MemTrackingInput (generous limit) and CountedInput, and through decode_with_mem_limit/decode_with_depth_limit with wide elements; fixed-size element types (bool, [u16;2], nested arrays) on unknown-length inputs at 2^26; BitVec: no heap request before the data is known to be present (allowance 0), 2^29-1 bits with 3 payload bytes",
+    "C10": "heap BLOCKS: counting allocator stubs -- after a failed decode, and after dropping a decoded value, no block is live (Rc/Arc/Box, tuples of boxes, Vec<Box>, LinkedList, VecDeque<Rc>); ledger element that reports a fixed encoded size; Box/Rc/Arc of a zero-sized element with Drop; derived transparent types through in-place decode",
+    "C11": "a vector decoded across two preallocation chunks (8 KiB elements; stubbed run) is one level, under the hook log and under limit 1; a depth tracker nested inside another: siblings do not accumulate",
+    "C12": "the same limit underneath decode_with_depth_limit and CountedInput accepts/rejects exactly like decode_with_mem_limit; LinkedList of elements wider than a pointer in the every-count hook check",
+    "C13": "user type whose wire size (5) differs from its memory size (8), alone and in (nested) arrays; Result/Option/tuples/Rc/Vec/Duration arrays in the fixed-size list (Some(k) => every value encodes to k bytes); encoded_fixed_size of every derived family member; enums whose variants share field types but differ in attributes",
+    "C14": "every strict prefix fails AND the full encoding followed by two arbitrary bytes is consumed exactly; Compact<u8/u16/u32> alone; IoReader on streams that end anywhere (std run); containers (Vec, VecDeque, LinkedList, BinaryHeap, BTreeSet, BTreeMap) of empty-encoding items decode from exactly their count byte; transparent derived types behind Box",
+    "C16": "every pair also through using_encoded; arrays of primitives in pointer forms (&, Box, Rc, Arc, array of refs, nested); str/String/Cow/Rc<String> of 63/64/65 bytes through every entry point; containers of empty-encoding elements",
+    "C18": "skip == decode through IoReader on streams that end anywhere (std run); every derived family member (skip vs decode over all byte strings)",
+    "C19": "skip through the counting input; inner input of unknown length with truncated data; sequences of reads/decodes on one counting input with a failure in between (success after failure is still counted)",
+    "C20": "EncodeAppend (C15 harnesses) in std, no-std + chain-error and with every optional integration off; Result/unit/phantom/zero-sized containers and the count boundaries in the core list that runs in every configuration",
+}
+for _k, _v in _MORE_BOUNDS.items():
+    PROPS[_k]["bounds"] = PROPS[_k]["bounds"] + "; ADDED AFTER SEEDED ROUNDS 3-4: " + _v
+_MORE_OUTSIDE = {
+    "C01": "owned BitVec values with stale bits behind their end and BitBox values that start inside a storage word (bitvec's owned-buffer paths: no result within 2400 s)",
+    "C02": "strings longer than a 16 KiB read chunk (UTF-8 validation of 64 symbolic bytes already exceeds 400 s)",
+    "C06": "owned BitVec / BitBox values (see C01)",
+    "C18": "strings longer than 128 bytes with a multi-byte character at a window edge",
+    "C19": "a single read of >= 2^32 bytes (object size limit of the engine)",
+    "C20": "state left behind by a PANICKING closure (Kani models panic as abort)",
+}
+for _k, _v in _MORE_OUTSIDE.items():
+    PROPS[_k]["outside"] = PROPS[_k]["outside"] + "; " + _v
+
 HOOK_COMMITS = ["9ece5a5"]
 NOT_APPLICABLE = {}
